@@ -1592,6 +1592,10 @@ fn classify_outline(c: &Case, exp: &[Pts], got: &[Pts]) -> &'static str {
     if novel.iter().any(|v| *v == 32767.0 || *v == -32768.0) && lost.iter().any(|v| *v > 32767.0 || *v < -32768.0) {
         return "clamped";
     }
+    // a coordinate that is off by a multiple of 2^16: a 16-bit value or difference wrapped around
+    if lost.iter().any(|l| novel.iter().any(|n| n != l && (n - l).rem_euclid(65536.0) == 0.0)) {
+        return "wrapped";
+    }
     if lost.iter().any(|l| novel.contains(&wrap(*l, 16, true))) {
         return "wrapped";
     }
@@ -1967,11 +1971,23 @@ fn main() {
     let cases = enumerate(args.tier);
     let (small, big): (Vec<Case>, Vec<Case>) = cases.into_iter().partition(|c| c.big_glyphs.is_none());
     let threads = vcore::ncores().max(2);
-    let results = vcore::par_for(small.len(), threads, |i| run_case(&small[i]));
-    let mut all: Vec<(Case, CaseResult)> = small.into_iter().zip(results).collect();
-
-    let mut exhaustive = true;
+    // wall-clock caps (the box is shared): cases beyond the cap are counted and reported, not judged
+    let cap_s = args.tier.pick(280.0, 900.0);
     let budget_s = 1100.0;
+    let results = vcore::par_for(small.len(), threads, |i| {
+        if t0.elapsed().as_secs_f64() > cap_s { None } else { Some(run_case(&small[i])) }
+    });
+    let n_small = small.len();
+    let mut all: Vec<(Case, CaseResult)> =
+        small.into_iter().zip(results).filter_map(|(c, r)| r.map(|r| (c, r))).collect();
+    let mut exhaustive = true;
+    if all.len() < n_small {
+        exhaustive = false;
+        rep.assume(&format!("time cap of {cap_s} s reached: {} of {n_small} enumerated cases were not run", n_small - all.len()));
+        rep.set("cases_not_run", (n_small - all.len()) as u64);
+    }
+    rep.set("enumerated", n_small as u64);
+    rep.set("mean_case_wall_ms", (t0.elapsed().as_secs_f64() * 1000.0 * threads as f64 / all.len().max(1) as f64).round());
     for c in big {
         if t0.elapsed().as_secs_f64() > budget_s {
             exhaustive = false;
